@@ -181,7 +181,7 @@ class Analyzer:
                 g = self.prog.resolve(f.unit, c[1])
                 if g:
                     keys.add(g.key)
-            elif c[0] == "i":
+            elif c[0] in ("i", "a"):
                 for (u, n, gname) in self.indirect_targets(f, i):
                     g = self.prog.resolve(u, n)
                     if g:
@@ -212,7 +212,8 @@ class Analyzer:
     def indirect_targets(self, f, call):
         slot = self.indirect_slot(f, call)
         if not slot:
-            return []
+            from .ir import indirect_targets as it
+            return [(g.unit, g.name, None) for g in it(self.prog, f, call)]
         return self.prog.slot_targets(slot[0], slot[1])
 
     def _toposort(self):
@@ -547,18 +548,27 @@ class FuncAnalysis:
         else:
             slot = self.an.indirect_slot(self.f, inst)
             if slot is None:
-                self.S.unknown_shapes.append((self.site(inst), "indirect call not through a vtable slot"))
-                return
-            tl = self.prog.slot_targets(slot[0], slot[1])
-            for (u, n, gname) in tl:
-                g = self.prog.resolve(u, n)
-                if g is not None and not g.decl:
-                    targets.append(g)
-            if collect:
-                self.S.indirect.append((inst["id"], slot[0], slot[1], [t.key for t in targets]))
-            if not targets:
-                self.S.unknown_shapes.append((self.site(inst), "vtable slot %s[%d] has no target" % slot))
-                return
+                from .ir import resolve_fnptr
+                ts, complete = resolve_fnptr(self.prog, self.f, inst["callee"])
+                if not complete and not ts:
+                    self.S.unknown_shapes.append((self.site(inst), "indirect call whose targets cannot be resolved (not a vtable slot, not a resolvable function-pointer argument)"))
+                    return
+                targets = list(ts)
+                if collect:
+                    self.S.indirect.append((inst["id"], None, None, [t.key for t in targets]))
+                if not targets:
+                    return      # only NULL reaches this call (guarded by a non-null test)
+            else:
+                tl = self.prog.slot_targets(slot[0], slot[1])
+                for (u, n, gname) in tl:
+                    g = self.prog.resolve(u, n)
+                    if g is not None and not g.decl:
+                        targets.append(g)
+                if collect:
+                    self.S.indirect.append((inst["id"], slot[0], slot[1], [t.key for t in targets]))
+                if not targets:
+                    self.S.unknown_shapes.append((self.site(inst), "vtable slot %s[%d] has no target" % slot))
+                    return
         sums = []
         for g in targets:
             s = self.an.summaries.get(g.key)
